@@ -362,11 +362,27 @@ def weak_partner(ctx, res):
     mod = repo.module(HT)
     fn = repo.func(HT, "HasTraits.sync_trait")
     ps = [a.arg for a in fn.args.args]
+    # the per-trait link table: the local bound to
+    # `<info>.setdefault(trait_name, {})` / `<info>[trait_name]`; the store
+    # of a link is a subscript assignment into it
+    tables = set()
+    for a in ast.walk(fn):
+        if isinstance(a, ast.Assign) and len(a.targets) == 1 \
+                and isinstance(a.targets[0], ast.Name):
+            t = norm(a.value)
+            if (".setdefault(" in t or ".get(" in t or "[" in t) \
+                    and ps[1] in names_in(a.value) \
+                    and "_get_sync_trait_info" not in t.split("(")[0]:
+                tables.add(a.targets[0].id)
     stores = [n for n in ast.walk(fn) if isinstance(n, ast.Assign)
-              and len(n.targets) == 1 and norm(n.targets[0]) == "dic[key]"]
+              and len(n.targets) == 1
+              and isinstance(n.targets[0], ast.Subscript)
+              and isinstance(n.targets[0].value, ast.Name)
+              and n.targets[0].value.id in tables]
     res.instance("sync_trait:partner-store", mod.loc(fn), stores=len(stores))
     if not stores:
-        raise AnalysisError("sync_trait: `dic[key] = ...` not found")
+        raise AnalysisError("sync_trait: the store of a link into the "
+                            "per-trait table was not found")
     for s in stores:
         v = s.value
         defs = [n.value for n in ast.walk(fn) if isinstance(n, ast.Assign)
@@ -523,6 +539,18 @@ def items_index_kinds(ctx, res):
                     for t in a.targets:
                         if isinstance(t, ast.Name):
                             holders.add(t.id)
+            from ..pyfacts import lower_ifexp_assign
+            fn = lower_ifexp_assign(fn)
+            # flag locals: `is_slice = isinstance(index, slice)`
+            sflags = {}
+            for a in ast.walk(fn):
+                if isinstance(a, ast.Assign) and len(a.targets) == 1 \
+                        and isinstance(a.targets[0], ast.Name) \
+                        and isinstance(a.value, ast.Call) \
+                        and norm(a.value.func) == "isinstance" \
+                        and norm(a.value.args[0]) in holders \
+                        and "slice" in norm(a.value.args[1]):
+                    sflags[a.targets[0].id] = True
             g = build_cfg(fn, qual)
             bad = None
             uses = 0
@@ -535,9 +563,10 @@ def items_index_kinds(ctx, res):
                         continue
                     if nd.kind == "cond":
                         t = a
-                        if isinstance(t, ast.Call) and norm(t.func) == \
-                                "isinstance" and norm(t.args[0]) in holders \
-                                and "slice" in norm(t.args[1]):
+                        if (isinstance(t, ast.Name) and t.id in sflags) or (
+                                isinstance(t, ast.Call) and norm(t.func) ==
+                                "isinstance" and norm(t.args[0]) in holders
+                                and "slice" in norm(t.args[1])):
                             if lab == "F":
                                 not_slice = True
                             elif lab == "T":
